@@ -40,6 +40,9 @@ claimed = {
  "C20": dict(cat="model_checking", tech="explicit-state BFS over use-case operation histories on the real code with a reference map + stateless schedule exploration of concurrent read-modify-write cycles on different entities, race detector per schedule",
              text="BFS over add/remove/set-availability/remove-all/remove-entity histories on entities [1],[1,1],[2], two actors, two names; after every transition HasUseCaseSupport for all 12 triples and the nodeManagementUseCaseData reply read by a peer equal the reference map (version, availability, scenarios, sub-revision); all interleavings of two threads working on different entities: nothing is lost.",
              ref="4 C20"),
+ "C19": dict(cat="exploration", tech="bounded exhaustive input enumeration on the real conversion functions (complete grids, no sampling), settable clock shim",
+             text="Complete enumeration of all decimals k*10^-d (0<=d<=4, |k|<=2e5 quick / 5e6 thorough), a structured magnitude grid below 1e14, all durations n*100ms up to 1e6 / 4e7 plus strides to 33 years, every second of a dense week and month boundaries of all years 1..9999, and relative end times read back with a stepped clock; each input is converted on the real code and compared with the exact expectation.",
+             ref="4 C19"),
 }
 checks = []
 for pid, c in sorted(claimed.items()):
